@@ -247,6 +247,13 @@ def build(carrier: str, cfg: dict, script: list[str], **kw: Any) -> Scenario:
         handlers = [dict(id='p', on='create', script=['ok'], **h)]
         return C11Scenario(handlers=handlers, subs={'p': [dict(id='s', script=script)]}, user=[(1.0, 'create', 'a')], horizon=50.0,
                            cfg=cfg, script=script, carrier=carrier, subject='p', settings=st, **kw)
+    if carrier in ('daemon+sibling', 'timer+sibling'):
+        # the limits hold while ANOTHER daemon of the same object keeps running and further events of the object arrive
+        subject = dict(id='dm', on='daemon', body='scripted', script=script, **h) if carrier.startswith('daemon') else \
+            dict(id='tm', on='timer', interval=INTERVAL, script=script, **h)
+        handlers = [subject, dict(id='sib', on='daemon', reaction='obeys')]
+        return C11Scenario(handlers=handlers, user=[(1.0, 'create', 'a'), (20.0, 'status', 'a', 1), (30.0, 'label', 'a', 'l', 'v'), (40.0, 'status', 'a', 2)],
+                           horizon=50.0, cfg=cfg, script=script, carrier=carrier.split('+')[0], subject=subject['id'], variant='sibling', settings=st, **kw)
     if carrier == 'daemon':
         handlers = [dict(id='dm', on='daemon', body='scripted', script=script, **h)]
         return C11Scenario(handlers=handlers, user=[(1.0, 'create', 'a')], horizon=50.0, cfg=cfg, script=script, carrier=carrier, subject='dm',
@@ -272,6 +279,9 @@ def run(tier: str, seed: int) -> CheckResult:
             plain.append(build(carrier, cfg, script, delays=False, early_user=False, time_dev=False))
     for cfg, script in itertools.product(cfgs, (['temp', 'ok'], ['temp', 'temp', 'ok'], ['temp', 'temp', 'temp', 'temp', 'ok'], ['temp2~1', 'temp', 'ok'])):
         plain.append(build('parent', cfg, script, delays=False, early_user=False, time_dev=False))
+    for carrier in ('daemon+sibling', 'timer+sibling'):
+        for cfg, script in itertools.product(cfgs, (['perm'], ['arb'], ['temp', 'temp', 'temp'], ['temp', 'ok'], ['ok'])):
+            plain.append(build(carrier, cfg, script, delays=False, early_user=False, time_dev=False))
     crash = [build(carrier, cfg, script, kills=True, delays=False, early_user=False, time_dev=False)
              for carrier in ('change', 'sub')
              for cfg in [c for c in cfgs if c['backoff'] == 2.0 and c['errors'] in (None, 'PERMANENT')]
